@@ -254,10 +254,45 @@ func Ops(t int) []OpGen {
 	switch t {
 	case ref.TConnect:
 		c := func(p mq.Packet) *mq.Connect { return p.(*mq.Connect) }
+		// the will attached last by the operations generated from this table
+		// (a table serves one history; operations run in the order generated)
+		var lastWill *mq.Publish
+		setWill := func(r *gen.RNG, zero bool) Op {
+			w, model := RandomWill(r)
+			lastWill = w
+			return Op{"SetWill", "will " + clip(w.TopicName()), func(p mq.Packet) { c(p).SetWill(w) }, model}
+		}
 		return []OpGen{
-			{"SetWill", func(r *gen.RNG, zero bool) Op {
-				w, model := RandomWill(r)
-				return Op{"SetWill", "will " + clip(w.TopicName()), func(p mq.Packet) { c(p).SetWill(w) }, model}
+			{"SetWill", setWill},
+			{"SetWillAgain", func(r *gen.RNG, zero bool) Op {
+				// the program edits the message it attached earlier and attaches
+				// the same *Publish again: flags and payload must follow
+				if lastWill == nil {
+					op := setWill(r, zero)
+					op.Name = "SetWillAgain"
+					return op
+				}
+				w := lastWill
+				qos := uint8(r.Intn(3))
+				retain := r.Bool()
+				payload := binArg(r, zero)
+				if zero {
+					qos, retain = 0, false
+				}
+				return Op{"SetWillAgain", fmt.Sprintf("same will, qos=%d retain=%v", qos, retain), func(p mq.Packet) {
+					w.SetQoS(qos)
+					w.SetRetain(retain)
+					w.SetPayload(payload)
+					c(p).SetWill(w)
+				}, func(a *ref.Packet) {
+					a.ConnFlags |= ref.CFWill
+					a.ConnFlags &^= ref.CFWillQoS | ref.CFWillRetain
+					a.ConnFlags |= qos << 3
+					if retain {
+						a.ConnFlags |= ref.CFWillRetain
+					}
+					a.WillPayload = append([]byte(nil), payload...)
+				}}
 			}},
 			u32Prop("SetWillDelayInterval", 0x18, true, func(p mq.Packet, v uint32) { c(p).SetWillDelayInterval(v) }),
 			{"SetCleanStart", func(r *gen.RNG, zero bool) Op {
